@@ -225,8 +225,14 @@ def rsa_in_batch(ctx, n):
   """(batch, key): the modulus at a varying position among the neighbours."""
   hs = rsa_neighbours(ctx)
   key = gen.rsa_key(n)
-  pos = ctx.counters.get('evaluations', 0) % 4
+  pos = ctx.counters.get('evaluations', 0) % 6
   ctx.count('batch_position:%d' % pos)
+  if pos >= 4:
+    # the same modulus twice in one batch (two certificates, one key), a
+    # healthy key between the copies: the *later* copy is the one observed
+    first = gen.rsa_key(n)
+    return [gen.rsa_key(h) for h in hs[:pos - 4]] + [first, gen.rsa_key(
+        hs[2]), key], key
   return [gen.rsa_key(h) for h in hs[:pos]] + [key] + [
       gen.rsa_key(h) for h in hs[pos:pos + 1]], key
 
